@@ -175,6 +175,14 @@ def run(chk, model_ok=True):
                     orc = SaltOracle()
                     installs += 1
                 continue
+            if r < 0.06 and not undiscovered:
+                # a re-keying attempt that is refused (empty privacy password): the installation in force — key, salt
+                # counter — must go on as if nothing had happened
+                bad_kw = dict(e2e.client_kwargs(s.peer.state))
+                bad_kw.update(priv_key=b"", priv_alg=s.peer.state.priv_alg)
+                if s.set_keys(s.peer.state, raw_kw=bad_kw)[0] == "ok":
+                    fail(f"{s.label}: set_keys accepted an empty privacy password", s.line())
+                continue
             if r < 0.08:
                 rec = s.send("getmany", [sessions.rand_oid_text(rng, long=True) for _ in range(rng.randrange(7, 12))])
             elif r < 0.3:
@@ -252,6 +260,19 @@ def run(chk, model_ok=True):
                         stz.parse_request(dgs[-1])
                     except ber.BerError as ex:
                         fail(f"empty {ktn} privacy key (zero-padded by user.py): the request does not decrypt under that key: {ex}", line)
+    # a privacy algorithm the library does not implement must be refused, not taken for "no privacy"
+    for code in (3, 4, 17, 63, 3 | 64, 3 | 128):
+        eng = bytes(rng.getrandbits(8) for _ in range(11))
+        rr = e2e.ncall(lambda: ag.make_sock(env.fast, env.agent, 3, engine_id=eng, user_name="u", auth_alg=2 | 128, auth_key=bytes(range(20)),
+                                            priv_alg=code, priv_key=bytes(range(16))))
+        n_cli += 1
+        if rr[0] == "ok":
+            env.agent.recv_all()
+            s1 = e2e.ncall(lambda: rr[1].send_get("1.3.6.1.2.1.1.1.0"))
+            dgs = env.agent.recv_all(expect=1, wait=0.05)
+            clear = bool(dgs) and not (ber.decode_message(dgs[-1]).get("flags", 0) & 2)
+            fail(f"a session was created for the unimplemented privacy algorithm code {code}"
+                 + (": its requests go out in clear (priv flag 0)" if clear else ""), f"# priv alg code {code}")
     nl, nd = sessions.model_compare(chk, all_sess, model_ok)
     chk.coverage.update({
         "evaluations": n_msg + n_pairs,
